@@ -38,6 +38,15 @@ type c18Inner struct {
 	Z []int64
 }
 
+// a self-referential input type (nested through a pointer and through a list)
+type c18Rec struct {
+	Name  string
+	Not   *c18Rec
+	Any   []c18Rec
+	Limit int64
+	Tag   *string
+}
+
 type c18Args struct {
 	B   bool
 	I8  int8
@@ -63,8 +72,8 @@ type c18Args struct {
 	PB  *bool
 	PE  *c18Enum
 	PF  *float64
-	OI  int64  `graphql:",optional"`
-	OS  string `graphql:",optional"`
+	OI  int64   `graphql:",optional"`
+	OS  string  `graphql:",optional"`
 	OE  c18Enum `graphql:",optional"`
 	L   []int32
 	LS  []string
@@ -73,6 +82,7 @@ type c18Args struct {
 	In  c18Inner
 	PIn *c18Inner
 	OIn c18Inner `graphql:",optional"`
+	Rec c18Rec
 }
 
 type c18Key struct{}
@@ -141,7 +151,17 @@ func c18FieldID(name string) int {
 var textUnmarshalerType = reflect.TypeOf((*interface{ UnmarshalText([]byte) error })(nil)).Elem()
 
 // c18TypeEnc mirrors how the schema builder classifies a Go argument type.
+var c18RecDepth = 0
+
 func c18TypeEnc(t reflect.Type) interface{} {
+	if t == reflect.TypeOf(c18Rec{}) {
+		// unrolled as deep as generated values go; below that only nil pointers and empty lists occur
+		if c18RecDepth >= 4 {
+			return "bool"
+		}
+		c18RecDepth++
+		defer func() { c18RecDepth-- }()
+	}
 	if t.Kind() == reflect.Ptr {
 		return map[string]interface{}{"ptr": c18TypeEnc(t.Elem())}
 	}
@@ -367,8 +387,26 @@ func c18GenInner(r *Rand) c18Inner {
 	return in
 }
 
+func c18GenRec(r *Rand, depth int) c18Rec {
+	x := c18Rec{Name: c18Strs[r.Intn(len(c18Strs))], Limit: c18GenInt(r, 64, true)}
+	if r.Bool() {
+		s := c18Strs[r.Intn(len(c18Strs))]
+		x.Tag = &s
+	}
+	if depth < 3 && r.Chance(0.6) {
+		n := c18GenRec(r, depth+1)
+		x.Not = &n
+	}
+	if depth < 3 {
+		for i := r.Intn(3); i > 0; i-- {
+			x.Any = append(x.Any, c18GenRec(r, depth+1))
+		}
+	}
+	return x
+}
+
 func c18GenArgs(r *Rand) c18Args {
-	a := c18Args{}
+	a := c18Args{Rec: c18GenRec(r, 0)}
 	a.B = r.Bool()
 	a.I8 = int8(c18GenInt(r, 8, true))
 	a.I16 = int16(c18GenInt(r, 16, true))
